@@ -6,6 +6,88 @@ open Pomdpio
 let tol = q_of_ints 1 100000000          (* 1e-8 absolute on values of magnitude <= ~100 *)
 let closeq a b = q_close ~atol:tol ~rtol:tol a b
 
+
+(* ---- Witness: transcript of the real LP answers (hook events) ---- *)
+type wev = { wq : bool; wt : int; wa : int; wcand : q list; wans : q list option; wfound : ventry list }
+
+let read_entry (r : cursor) : ventry =
+  let a = next_nat r in let ob = next_nats r in
+  let vs = next_list r (fun c -> q_of_float (float_of_string (next c))) in
+  { vals = vs; act = a; obs = ob }
+
+let read_wevents (r : cursor) : wev list =
+  let n = next_int r in
+  take_n n (fun () ->
+      let k = next r in let t = next_int r in let a = next_int r in
+      let (cand, ans) =
+        if k = "Q" then begin
+          let cand = next_list r (fun c -> q_of_float (float_of_string (next c))) in
+          let has = next_int r in
+          let b = next_list r (fun c -> q_of_float (float_of_string (next c))) in
+          (cand, if has = 1 then Some b else None)
+        end else ([], None) in
+      let nf = next_int r in
+      let found = take_n nf (fun () -> read_entry r) in
+      { wq = (k = "Q"); wt = t; wa = a; wcand = cand; wans = ans; wfound = found })
+
+(* untrusted search for the certificate of a "no witness" answer: the matrix game with payoff
+   cand_s - row_u(s), solved in floating point by a tableau simplex with Bland's rule.
+   Returns (weights over the rows, a candidate separating belief). *)
+let game_solve (rows : q list list) (cand : q list) : float array * float array =
+  let ns = List.length cand and nu = List.length rows in
+  let c = Array.of_list (List.map float_of_q cand) in
+  let u = Array.of_list (List.map (fun r -> Array.of_list (List.map float_of_q r)) rows) in
+  let k = ref 1.0 in
+  for s = 0 to ns - 1 do for j = 0 to nu - 1 do k := max !k (1.0 +. abs_float (c.(s) -. u.(j).(s))) done done;
+  let nc = nu + ns in
+  let tab = Array.make_matrix (ns + 1) (nc + 1) 0.0 in
+  for s = 0 to ns - 1 do
+    for j = 0 to nu - 1 do tab.(s).(j) <- c.(s) -. u.(j).(s) +. !k done;
+    tab.(s).(nu + s) <- 1.0; tab.(s).(nc) <- 1.0
+  done;
+  for j = 0 to nu - 1 do tab.(ns).(j) <- -1.0 done;
+  let basis = Array.init ns (fun s -> nu + s) in
+  let eps = 1e-12 in
+  let go = ref true and iters = ref 0 in
+  while !go && !iters < 20000 do
+    incr iters;
+    let e = ref (-1) in
+    (try for j = 0 to nc - 1 do if tab.(ns).(j) < -. eps then (e := j; raise Exit) done with Exit -> ());
+    if !e < 0 then go := false else begin
+      let l = ref (-1) and best = ref infinity in
+      for i = 0 to ns - 1 do
+        if tab.(i).(!e) > eps then begin
+          let r = tab.(i).(nc) /. tab.(i).(!e) in
+          if r < !best -. 1e-15 || (!l >= 0 && abs_float (r -. !best) <= 1e-15 && basis.(i) < basis.(!l)) then (best := r; l := i)
+        end
+      done;
+      if !l < 0 then go := false else begin
+        let p = tab.(!l).(!e) in
+        for j = 0 to nc do tab.(!l).(j) <- tab.(!l).(j) /. p done;
+        for i = 0 to ns do
+          if i <> !l then begin
+            let f = tab.(i).(!e) in
+            if f <> 0.0 then for j = 0 to nc do tab.(i).(j) <- tab.(i).(j) -. f *. tab.(!l).(j) done
+          end
+        done;
+        basis.(!l) <- !e
+      end
+    end
+  done;
+  let y = Array.make nu 0.0 in
+  Array.iteri (fun i b -> if b < nu then y.(b) <- max 0.0 tab.(i).(nc)) basis;
+  let x = Array.init ns (fun s -> max 0.0 tab.(ns).(nu + s)) in
+  (y, x)
+
+let normalise (a : float array) : q list option =
+  let qs = Array.to_list (Array.map q_of_float a) in
+  let tot = List.fold_left q_add q_zero qs in
+  if q_le tot q_zero then None else Some (List.map (fun x -> vio_qred (vio_qdiv x tot)) qs)
+
+let weps = q_of_ints 1 10000000           (* slack of a certified "no witness" answer: 1e-7 per unit of mass *)
+let qdot a b = List.fold_left2 (fun acc x y -> q_add acc (q_mul x y)) q_zero a b
+let vec_close a b = List.length a = List.length b && List.for_all2 closeq a b
+
 let judge _id (c : cursor) (r : cursor) : bool * string =
   let kind = next c in
   match kind with
@@ -52,7 +134,100 @@ let judge _id (c : cursor) (r : cursor) : bool * string =
               if not (List.exists (fun (me : ventry) -> List.length me.vals = List.length ie.vals && List.for_all2 same me.vals ie.vals) ml)
               then disagree "ip_vectors_subset" site (Printf.sprintf "horizon %d: an implementation vector is not among the model's vectors" t)) il) vf
     end;
-    (h >= 2 && int_of_nat m.nO >= 2, alg)
+
+    let wtag = ref alg in
+    if alg = "wit" then begin
+      let evs = read_wevents r in
+      let sN = m.pm.nS in
+      (* O: every answer of the real LP is checked, not trusted *)
+      let certs = List.map (fun e ->
+          if not e.wq then (e, None) else begin
+            let rows = List.map (fun (f : ventry) -> f.vals) e.wfound in
+            match e.wans with
+            | Some b ->
+              let tol9 = q_of_ints 1 1000000000 in
+              let okb = List.length b = s && List.for_all (fun x -> q_le (q_sub q_zero tol9) x) b
+                        && q_le (q_abs (q_sub (List.fold_left q_add q_zero b) q_one)) tol9 in
+              if not okb then oracle_fail "witness_answer_is_witness" site "the reported witness is not a belief";
+              List.iter (fun rw -> if q_lt (q_add (qdot e.wcand b) tol9) (qdot rw b) then
+                            oracle_fail "witness_answer_is_witness" site
+                              (Printf.sprintf "timestep %d action %d: at the reported witness the candidate is below a row already found" e.wt e.wa)) rows;
+              (e, None)
+            | None ->
+              if rows = [] then oracle_fail "witness_none_complete" site "no witness reported against an empty set of rows";
+              let (y, x) = game_solve rows e.wcand in
+              (match normalise y with
+               | Some lam when none_cert_ok sN weps rows e.wcand lam -> (e, Some lam)
+               | _ ->
+                 (* no certificate: look for a belief that separates the candidate from all rows by more than the slack *)
+                 (match normalise x with
+                  | Some b when List.for_all (fun rw -> q_lt (q_add (qdot rw b) weps) (qdot e.wcand b)) rows ->
+                    oracle_fail "witness_none_complete" site
+                      (Printf.sprintf "timestep %d action %d: LP said no witness, but at belief %s the candidate beats every row found" e.wt e.wa (str_qs b))
+                  | _ -> (e, None)))
+          end) evs in
+      let inconclusive = List.exists (fun (e, c) -> e.wq && e.wans = None && c = None) certs in
+      wtag := (if inconclusive then "wit-inconclusive" else "wit-certified");
+      if not inconclusive then begin
+        (* C: the model's agenda loop, driven by this transcript through cert_oracle, reproduces U[a] of every timestep *)
+        let find t a nrows cand =
+          List.find_opt (fun (e, _) -> e.wq && e.wt = int_of_nat t && e.wa = int_of_nat a
+                                       && List.length e.wfound = nrows && vec_close e.wcand cand) certs in
+        let missing = ref false in
+        let ans t a rows cand = match find t a (List.length rows) cand with
+          | Some (e, _) -> e.wans
+          | None -> missing := true; Some (List.map (fun _ -> q_zero) cand) in
+        let lam t a rows cand = match find t a (List.length rows) cand with
+          | Some (_, Some l) -> l | _ -> [] in
+        let fb = List.init s (fun i -> if i = 0 then q_one else q_zero) in
+        let orc = cert_oracle sN weps ans lam fb in
+        for t = 1 to h do
+          let w = List.nth vf (t - 1) in
+          missing := false;
+          (* a witness belief at which two different projection vectors tie (within 1e-9) for the maximum: the
+             floating-point findBestAtPoint and the exact one may pick different entries there; such a timestep
+             is ill-conditioned and is not compared *)
+          let illcond () =
+            let tol9 = q_of_ints 1 1000000000 in
+            List.exists (fun e ->
+                e.wq && e.wt = t && (match e.wans with
+                    | None -> false
+                    | Some b ->
+                      List.exists (fun (pl : ventry list) ->
+                          let vals_ = List.map (fun (p : ventry) -> (p.vals, qdot p.vals b)) pl in
+                          let mx = List.fold_left (fun acc (_, v) -> q_max acc v) (snd (List.hd vals_)) vals_ in
+                          let tops = List.filter (fun (_, v) -> q_le (q_sub mx v) tol9) vals_ in
+                          (match tops with
+                           | (v0, _) :: rest_ -> List.exists (fun (v1, _) -> not (List.for_all2 q_eq v0 v1)) rest_
+                           | [] -> false)) (proj_row m w (nat_of_int e.wa)))) evs in
+          let disagree cl st msg = if illcond () then (wtag := "wit-illcond"; raise Exit) else disagree cl st msg in
+          (try
+          let nq = List.length (List.filter (fun e -> e.wq && e.wt = t) evs) in
+          (match wit_lists orc (nat_of_int (nq + 8)) (nat_of_int t) m w with
+           | None ->
+             if !missing then disagree "witness_transcript" site (Printf.sprintf "timestep %d: the model asks a witness query the implementation did not make" t);
+             disagree "witness_lists" site (Printf.sprintf "timestep %d: the model's agenda loop needs more queries than the implementation made" t)
+           | Some us ->
+             if !missing then disagree "witness_transcript" site (Printf.sprintf "timestep %d: the model asks a witness query the implementation did not make" t);
+             List.iteri (fun a (mu : ventry list) ->
+                 match List.find_opt (fun e -> (not e.wq) && e.wt = t && e.wa = a) evs with
+                 | None -> disagree "witness_lists" site (Printf.sprintf "timestep %d action %d: no list reported" t a)
+                 | Some e ->
+                   if List.length e.wfound <> List.length mu then
+                     disagree "witness_lists" site (Printf.sprintf "timestep %d action %d: %d entries found, model finds %d" t a (List.length e.wfound) (List.length mu));
+                   List.iter2 (fun (ie : ventry) (me : ventry) ->
+                       if ie.act <> me.act || ie.obs <> me.obs || not (vec_close ie.vals me.vals) then
+                         disagree "witness_lists" site (Printf.sprintf "timestep %d action %d: an entry differs from the model's" t a)) e.wfound mu) us;
+             (* what the final pruning keeps comes from these lists *)
+             let all = List.concat us in
+             List.iter (fun (ie : ventry) ->
+                 if not (List.exists (fun (me : ventry) -> vec_close me.vals ie.vals) all) then
+                   disagree "witness_vectors_subset" site (Printf.sprintf "horizon %d: a returned vector is not among the vectors found" t)) (List.nth vf t))
+           with Exit -> ())
+        done
+      end
+    end;
+    (h >= 2 && int_of_nat m.nO >= 2, !wtag)
   | "rtbss" ->
     let _repr = next c in let h = next_int c in let maxR = next_q c in
     let m = read_pomdp c in
